@@ -18,11 +18,14 @@ import (
 	"bytes"
 	"crypto/sha256"
 	"encoding/hex"
+	"encoding/json"
 	"fmt"
 	"io"
 	"math/rand"
 	"net/http"
 	"os"
+	"os/exec"
+	"os/signal"
 	"path/filepath"
 	"runtime"
 	"sort"
@@ -30,6 +33,7 @@ import (
 	"strings"
 	"sync"
 	"sync/atomic"
+	"syscall"
 	"time"
 
 	"github.com/glowlabs-org/gca-backend/server"
@@ -80,9 +84,9 @@ func main() {
 		},
 		Post: func(c *ev.Check, outs []*run.Outcome) {
 			for _, k := range []string{"archives_verified", "gap.cases_200", "gap.bursts_effective", "gapreg.cases_200", "gapreg.empty_key_archives",
-				"conc.archives_with_concurrent_append", "conc.runs", "rate.decisive_bursts", "rate.staggered_on_schedule", "rate.held_on_schedule", "rate.status_200", "rate.status_429",
+				"conc.archives_with_concurrent_append", "conc.runs", "rate.decisive_bursts", "rate.staggered_on_schedule", "rate.held_in_time", "rate.status_200", "rate.status_429",
 				"verified.reports", "verified.authorizations", "verified.stats_records", "verified.entries", "prefix_checks_after_quiescence", "privkey_scans",
-				"hunt.archives", "statsappend.chased_requests", "tornstart.started", "tornstart.archives"} {
+				"hunt.archives", "statsappend.chased_requests", "tornstart.started", "tornstart.archives", "fifo.parked", "shortwrite.episodes", "shortwrite.archives"} {
 				c.Require(k, 1)
 			}
 			for g := 1; g <= 6; g++ {
@@ -152,6 +156,8 @@ func plan(tier string, seed int64) []run.Batch {
 	}
 	for i := 0; i < reps; i++ {
 		add(run.Batch{Kind: "tornstart", N: 10, TimeoutS: 110})
+		add(run.Batch{Kind: "fifo", N: 6, TimeoutS: 110})
+		add(run.Batch{Kind: "shortwrite", N: 2, TimeoutS: 150})
 	}
 	if tier == "thorough" {
 		// one public file above 1 GiB (needs ~1.2 GB of scratch disk and ~3 GB of memory for a minute)
@@ -182,6 +188,14 @@ func child(b run.Batch, r *ev.Result) {
 		childHunt(b, r)
 	case "tornstart":
 		childTornStart(b, r)
+	case "fifo":
+		childFifo(b, r)
+	case "shortwrite":
+		childShortWrite(b, r)
+	case "shortwrite-server":
+		childShortWriteServer(b, r)
+	case "shortwrite-restart":
+		childShortWriteRestart(b, r)
 	case "bigfile":
 		childBigFile(b, r)
 	default:
@@ -2151,6 +2165,442 @@ func (v *verifier) verifyBig(body []byte, priv [32]byte, diskPath string, ctx ma
 	r.Sample(map[string]interface{}{"kind": "bigfile", "entry_bytes": total, "zip_bytes": len(body)})
 }
 
+// ---------------------------------------------------------------- (f) the READ of one public file held open, independent of hook positions
+
+// threadsWaitingForFifoPartner reports whether a thread of this process is
+// blocked in open() on a FIFO (kernel wait channel wait_for_partner).
+func threadsWaitingForFifoPartner() bool {
+	ws, _ := filepath.Glob("/proc/self/task/*/wchan")
+	for _, p := range ws {
+		if b, err := os.ReadFile(p); err == nil && strings.Contains(string(b), "wait_for_partner") {
+			return true
+		}
+	}
+	return false
+}
+
+// parkRead holds the handler's read of one public file open without any hook:
+// the file is swapped for a named pipe, so that whoever opens it for reading
+// blocks in open(); once a reader is parked there the real file is put back
+// (the reader stays on the pipe), the burst runs through the server against
+// the real files, and then the pipe is fed the real file's content of that
+// moment, i.e. exactly what a read of the file at that moment returns.
+func (w *gapWorld) parkRead(name string, burst func() bool, ctx map[string]interface{}) {
+	r := w.r
+	p := filepath.Join(w.Dir, name)
+	realp, ff := p+".real", p+".fifo"
+	type resp struct {
+		st   int
+		body []byte
+		err  error
+	}
+	for attempt := 0; attempt < 5; attempt++ {
+		time.Sleep(65 * time.Millisecond)
+		if err := os.Rename(p, realp); err != nil {
+			r.Inconc("fifo: " + err.Error())
+			return
+		}
+		if err := syscall.Mkfifo(p, 0644); err != nil {
+			os.Rename(realp, p)
+			r.Inconc("fifo: mkfifo: " + err.Error())
+			return
+		}
+		resCh := make(chan resp, 1)
+		go func() {
+			st, body, err := w.f.get(-1)
+			resCh <- resp{st, body, err}
+		}()
+		parked := false
+		var early *resp
+		deadline := time.Now().Add(3 * time.Second)
+		for time.Now().Before(deadline) && !parked && early == nil {
+			select {
+			case x := <-resCh:
+				early = &x
+			default:
+				parked = threadsWaitingForFifoPartner()
+				if !parked {
+					time.Sleep(200 * time.Microsecond)
+				}
+			}
+		}
+		// the real file goes back; a parked reader stays on the pipe
+		os.Rename(p, ff)
+		if err := os.Rename(realp, p); err != nil {
+			r.Inconc("fifo: cannot restore " + name + ": " + err.Error())
+			return
+		}
+		burstOK := false
+		if parked {
+			burstOK = burst()
+		}
+		data, _ := os.ReadFile(p)
+		fd, oerr := syscall.Open(ff, syscall.O_WRONLY|syscall.O_NONBLOCK, 0)
+		if oerr == nil {
+			syscall.SetNonblock(fd, false)
+			pf := os.NewFile(uintptr(fd), ff)
+			pf.Write(data)
+			pf.Close()
+		} else {
+			parked = false // nobody was waiting on the pipe after all
+		}
+		os.Remove(ff)
+		var x resp
+		if early != nil {
+			x = *early
+		} else {
+			select {
+			case x = <-resCh:
+			case <-time.After(30 * time.Second):
+				r.Inconc("fifo: archive request did not return after the pipe was fed")
+				return
+			}
+		}
+		if x.err == nil && x.st == http.StatusTooManyRequests {
+			continue
+		}
+		r.Count("fifo.episodes", 1)
+		if x.err != nil || x.st != 200 {
+			r.Count(fmt.Sprintf("fifo.status_%d", x.st), 1)
+			return
+		}
+		ctx["parked"] = parked
+		info := w.v.verify(x.body, w.priv, ctx)
+		w.infos = append(w.infos, info)
+		if parked {
+			r.Count("fifo.parked", 1)
+			r.Count("fifo.parked."+name, 1)
+			if burstOK {
+				r.Count("fifo.bursts_effective", 1)
+				if info != nil {
+					r.Nontrivial(fmt.Sprintf("fifo/%d/%s/%v", w.b.Seed, name, lensOf(info)))
+				}
+			}
+		} else {
+			r.Count("fifo.not_parked", 1)
+		}
+		return
+	}
+}
+
+func childFifo(b run.Batch, r *ev.Result) {
+	rng := rand.New(rand.NewSource(b.Seed))
+	drv.SetClock(500 + uint32(rng.Intn(300)))
+	drv.GateRotation(true)
+	drv.GateImpact(true)
+	v := newVerifier(b, r)
+	// registered server: the read of equipment-reports.dat (and once of the
+	// authorizations) is parked, burst = new device + its first report
+	func() {
+		dir := filepath.Join(b.Dir, "srv")
+		defer os.RemoveAll(dir)
+		dw, err := newWorld(dir, rng)
+		if err != nil {
+			r.Inconc("cannot start world: " + err.Error())
+			return
+		}
+		w := &gapWorld{World: dw, b: b, rng: rng, r: r, v: v, nextID: uint32(10 + rng.Intn(100)), priv: dw.Key.Priv}
+		for i := 0; i < 2+rng.Intn(3); i++ {
+			if _, _, err := w.newDevice(1 + rng.Intn(4)); err != nil {
+				r.Inconc(err.Error())
+				dw.Close()
+				return
+			}
+		}
+		w.f = newFetcher(w.HTTP)
+		for k := 0; k < b.N-2; k++ {
+			name := "equipment-reports.dat"
+			if k == 2 {
+				name = "equipment-authorizations.dat"
+			}
+			run.Op("fifo episode %d file=%s", k, name)
+			w.parkRead(name, func() bool {
+				before := fileSizes(dir)
+				if _, _, err := w.newDevice(1); err != nil {
+					return false
+				}
+				after := fileSizes(dir)
+				return after[2]-before[2] == authLen && after[1]-before[1] == reportLen
+			}, map[string]interface{}{"kind": "fifo", "file": name, "burst": "newdev", "episode": k})
+		}
+		judgeRate(v, w.f, "fifo")
+		w.f.close()
+		dw.Close()
+		v.prefixCheck(w.infos, dir, "after_quiescence")
+	}()
+	// unregistered server with an empty gcaPubKey.dat: the read of the
+	// authorizations is parked, burst = registration + first device + report
+	for k := 0; k < 2; k++ {
+		dir := filepath.Join(b.Dir, fmt.Sprintf("srv-u%d", k))
+		func() {
+			defer os.RemoveAll(dir)
+			e, err := drv.NewServerDir(dir, rng, true)
+			if err != nil {
+				r.Inconc(err.Error())
+				return
+			}
+			os.WriteFile(filepath.Join(dir, "gcaPubKey.dat"), nil, 0644)
+			if err := e.Start(); err != nil {
+				r.Inconc("server start: " + err.Error())
+				return
+			}
+			defer e.Close()
+			w := &gapWorld{World: &drv.World{Srv: e, GCA: refenc.GenKey(rng), Devs: map[uint32]*drv.Dev{}, Rng: rng}, b: b, rng: rng, r: r, v: v,
+				nextID: uint32(10 + rng.Intn(100)), priv: e.Key.Priv}
+			w.f = newFetcher(e.HTTP)
+			defer w.f.close()
+			run.Op("fifo unregistered episode %d", k)
+			w.parkRead("equipment-authorizations.dat", func() bool {
+				st, _, err := e.Register(w.GCA.Pub, e.Temp.Priv)
+				if err != nil || st != 200 {
+					return false
+				}
+				_, _, err = w.newDevice(1)
+				return err == nil
+			}, map[string]interface{}{"kind": "fifo-unregistered", "file": "equipment-authorizations.dat", "burst": "register+device+report", "episode": k})
+			e.Close()
+			v.prefixCheck(w.infos, dir, "after_quiescence")
+		}()
+	}
+}
+
+// ---------------------------------------------------------------- (g) a short write of the weekly statistics record
+
+// childShortWrite: a rotation runs in a process of its own whose file size
+// limit ends inside the record that the rotation appends (the write is cut
+// short and fails: a full disk). Whatever that process does - it may die, it
+// may carry on and try again - every archive served afterwards, by it and by
+// a server restarted on the directory, has to satisfy the archive oracles.
+func childShortWrite(b run.Batch, r *ev.Result) {
+	rng := rand.New(rand.NewSource(b.Seed))
+	drv.GateRotation(true)
+	drv.GateImpact(true)
+	self, err := os.Executable()
+	if err != nil {
+		r.Inconc(err.Error())
+		return
+	}
+	for ep := 0; ep < b.N; ep++ {
+		dir := filepath.Join(b.Dir, fmt.Sprintf("srv-%d", ep))
+		gdir := filepath.Join(b.Dir, fmt.Sprintf("g-%d", ep))
+		func() {
+			defer os.RemoveAll(dir)
+			defer os.RemoveAll(gdir)
+			drv.SetClock(500 + uint32(rng.Intn(300)))
+			dw, err := newWorld(dir, rng)
+			if err != nil {
+				r.Inconc("cannot start world: " + err.Error())
+				return
+			}
+			w := &gapWorld{World: dw, b: b, rng: rng, r: r, v: newVerifier(b, r), nextID: uint32(10 + rng.Intn(100)), priv: dw.Key.Priv}
+			nDev := 2 + rng.Intn(3)
+			var devs []*drv.Dev
+			for i := 0; i < nDev; i++ {
+				d, _, err := w.newDevice(1 + rng.Intn(3))
+				if err != nil {
+					r.Inconc(err.Error())
+					dw.Close()
+					return
+				}
+				devs = append(devs, d)
+			}
+			if n := w.rotate(); n != 1 {
+				if n < 0 {
+					r.Count("shortwrite.rotation_step_watchdog", 1)
+				} else {
+					r.Inconc(fmt.Sprintf("shortwrite: set-up rotation did not happen (%d)", n))
+				}
+				dw.Close()
+				return
+			}
+			off := w.offset()
+			for _, d := range devs {
+				w.Inject(d.Report(pickSlot(rng, drv.Clock(), off), uint64(2+rng.Intn(1000))).Bytes())
+			}
+			dw.Close()
+			size := fileSizes(dir)[0]
+			recLen := int64(4 + nDev*devStatsLen + 4 + 64)
+			limit := size + 1 + rng.Int63n(recLen-1)
+			run.Op("shortwrite episode %d: stats file %d bytes, record %d bytes, limit %d", ep, size, recLen, limit)
+			params := map[string]string{"dir": dir, "offset": fmt.Sprint(off), "limit": fmt.Sprint(limit), "episode": fmt.Sprint(ep),
+				"clock": fmt.Sprint(off + 3300 + uint32(rng.Intn(100)))}
+			r.Count("shortwrite.episodes", 1)
+			gr, stderr := spawnStage(self, b, "shortwrite-server", gdir, params, r)
+			switch {
+			case gr != nil:
+				r.Count("shortwrite.server_process_survived", 1)
+				mergeResult(r, gr)
+			case strings.Contains(stderr, "failed to save all device stats"):
+				r.Count("shortwrite.server_process_died_on_failed_append", 1)
+			default:
+				r.Count("shortwrite.server_process_died_otherwise", 1)
+				r.Note("shortwrite: server process ended without result: %.300s", run.CrashLine(stderr))
+			}
+			r.Max("max.shortwrite_stats_tail_after_fault", fileSizes(dir)[0]-size)
+			// in any case: a server restarted on the directory, again in a process of its
+			// own (a loader that chokes on the directory must not take this child down;
+			// whether it has to start is not C14's business)
+			os.RemoveAll(gdir)
+			gr, stderr = spawnStage(self, b, "shortwrite-restart", gdir, params, r)
+			if gr != nil {
+				mergeResult(r, gr)
+			} else {
+				r.Count("shortwrite.restart_process_died", 1)
+				r.Note("shortwrite: restart process ended without result: %.300s", run.CrashLine(stderr))
+			}
+		}()
+		if r.NumViolations() > 20 {
+			return
+		}
+	}
+}
+
+// spawnStage runs one stage of an episode in a process of its own (this
+// binary in its child role) and returns its result, or nil and its stderr if
+// it died.
+func spawnStage(self string, b run.Batch, kind, gdir string, params map[string]string, r *ev.Result) (*ev.Result, string) {
+	os.MkdirAll(gdir, 0755)
+	gb := run.Batch{Index: b.Index, Seed: b.Seed, Tier: b.Tier, Kind: kind, Dir: gdir, Params: params}
+	raw, _ := json.Marshal(gb)
+	bf := filepath.Join(gdir, "batch.json")
+	os.WriteFile(bf, raw, 0644)
+	cmd := exec.Command(self, "child", bf)
+	cmd.Dir = gdir
+	se, _ := os.Create(filepath.Join(gdir, "stderr"))
+	defer se.Close()
+	cmd.Stderr = se
+	if err := cmd.Start(); err != nil {
+		r.Inconc("cannot start stage process: " + err.Error())
+		return nil, ""
+	}
+	done := make(chan error, 1)
+	go func() { done <- cmd.Wait() }()
+	select {
+	case <-done:
+	case <-time.After(60 * time.Second):
+		cmd.Process.Kill()
+		<-done
+		r.Count("shortwrite.stage_process_watchdog", 1)
+	}
+	stderr, _ := os.ReadFile(filepath.Join(gdir, "stderr"))
+	if len(stderr) > 20000 {
+		stderr = stderr[:20000]
+	}
+	gr, err := ev.LoadResult(filepath.Join(gdir, "result.json"))
+	if err != nil {
+		return nil, string(stderr)
+	}
+	return gr, string(stderr)
+}
+
+func mergeResult(r, gr *ev.Result) {
+	r.Eval(int(gr.Evaluations))
+	for k, n := range gr.Counters {
+		if strings.HasPrefix(k, "max.") {
+			r.Max(k, n)
+		} else {
+			r.Count(k, n)
+		}
+	}
+	for _, x := range gr.Violations {
+		r.Violation(x.Key, x.Desc, x.Replay)
+	}
+	for _, x := range gr.Inconclusive {
+		r.Inconc(x)
+	}
+}
+
+// childShortWriteRestart: a server started on the directory the faulty
+// rotation left behind; if it starts, one more rotation and two archives.
+func childShortWriteRestart(b run.Batch, r *ev.Result) {
+	dir := b.P("dir")
+	clock, _ := strconv.ParseUint(b.P("clock"), 10, 32)
+	drv.GateRotation(true)
+	drv.GateImpact(true)
+	drv.SetClock(uint32(clock))
+	e := &drv.Srv{Dir: dir}
+	if err := e.Start(); err != nil {
+		r.Count("shortwrite.refused_to_restart", 1)
+		return
+	}
+	defer e.Close()
+	r.Count("shortwrite.restarted", 1)
+	v := newVerifier(b, r)
+	w := &gapWorld{World: &drv.World{Srv: e}, b: b, r: r, v: v, priv: [32]byte(e.S.VerifPrivateKey())}
+	w.f = newFetcher(e.HTTP)
+	defer w.f.close()
+	ctx := map[string]interface{}{"kind": "shortwrite-restarted", "episode": b.P("episode"), "limit": b.P("limit")}
+	var infos []*archInfo
+	for round := 0; round < 2; round++ {
+		if round == 1 {
+			if n := drv.StepRotation(); n == 1 {
+				r.Count("shortwrite.rotations_after_restart", 1)
+			}
+		}
+		if st, body, err := w.getPaced(); err == nil && st == 200 {
+			r.Count("shortwrite.archives", 1)
+			info := v.verify(body, w.priv, ctx)
+			infos = append(infos, info)
+			if info != nil {
+				r.Nontrivial(fmt.Sprintf("shortwrite/%d/%s/%d/%v", b.Seed, b.P("episode"), round, lensOf(info)))
+			}
+		} else {
+			r.Count(fmt.Sprintf("shortwrite.status_%d", st), 1)
+		}
+	}
+	e.Close()
+	v.prefixCheck(infos, dir, "after_quiescence")
+}
+
+// childShortWriteServer is the process with the file size limit.
+func childShortWriteServer(b run.Batch, r *ev.Result) {
+	signal.Ignore(syscall.SIGXFSZ)
+	dir := b.P("dir")
+	off64, _ := strconv.ParseUint(b.P("offset"), 10, 32)
+	limit, _ := strconv.ParseUint(b.P("limit"), 10, 64)
+	off := uint32(off64)
+	drv.GateRotation(true)
+	drv.GateImpact(true)
+	drv.SetClock(off + 3000)
+	e := &drv.Srv{Dir: dir}
+	if err := e.Start(); err != nil {
+		r.Inconc("shortwrite: server does not start on the prepared directory: " + err.Error())
+		return
+	}
+	defer e.Close()
+	v := newVerifier(b, r)
+	priv := [32]byte(e.S.VerifPrivateKey())
+	var old syscall.Rlimit
+	if err := syscall.Getrlimit(syscall.RLIMIT_FSIZE, &old); err != nil {
+		r.Inconc("getrlimit: " + err.Error())
+		return
+	}
+	if err := syscall.Setrlimit(syscall.RLIMIT_FSIZE, &syscall.Rlimit{Cur: limit, Max: old.Max}); err != nil {
+		r.Inconc("setrlimit: " + err.Error())
+		return
+	}
+	drv.SetClock(off + 3300)
+	run.Op("rotation with RLIMIT_FSIZE=%d", limit)
+	n := drv.StepRotation() // a server that panics on the failed append ends the process here
+	syscall.Setrlimit(syscall.RLIMIT_FSIZE, &old)
+	r.Count(fmt.Sprintf("shortwrite.live.first_pass_rotations_%d", n), 1)
+	n2 := drv.StepRotation() // the next pass of the loop, the disk has room again
+	r.Count(fmt.Sprintf("shortwrite.live.second_pass_rotations_%d", n2), 1)
+	w := &gapWorld{World: &drv.World{Srv: e}, b: b, r: r, v: v, priv: priv}
+	w.f = newFetcher(e.HTTP)
+	defer w.f.close()
+	ctx := map[string]interface{}{"kind": "shortwrite-live", "limit": limit, "first_pass": n, "second_pass": n2}
+	var infos []*archInfo
+	for round := 0; round < 2; round++ {
+		if st, body, err := w.getPaced(); err == nil && st == 200 {
+			r.Count("shortwrite.archives", 1)
+			infos = append(infos, v.verify(body, priv, ctx))
+		}
+	}
+	e.Close()
+	v.prefixCheck(infos, dir, "after_quiescence")
+}
+
 // ---------------------------------------------------------------- (c) rate limit
 
 func childRate(b run.Batch, r *ev.Result) {
@@ -2427,6 +2877,12 @@ func childRate(b run.Batch, r *ev.Result) {
 		m, _ := densest(recs, window, func(x rec) bool { return x.Burst == tag })
 		if all200 && a.err == nil && a.st == 500 && f.err == nil && m >= limit+2 {
 			r.Count("rate.held_on_schedule", 1)
+			r.Count("rate.held_in_time", 1)
+		} else if all200 && a.err == nil && a.st == 200 && f.err == nil && m >= limit+2 {
+			// the schedule was kept but the parked request did not fail: this server had
+			// read the file before the hook point, the choreography does not apply to it
+			r.Count("rate.held_request_did_not_fail", 1)
+			r.Count("rate.held_in_time", 1)
 		} else {
 			r.Count("rate.held_slipped", 1)
 		}
